@@ -5,7 +5,7 @@ EXTENDS OpSelect, Json, TLC
 CONSTANT MaxOps
 
 Decorations == {"crlf", "cr", "tabs", "commas", "comments", "escapes", "blockstring",
-                "notrailingnewline", "leadingblank", "astral"}
+                "notrailingnewline", "leadingblank", "astral", "bom"}
 DecoSets == {{}} \cup {{d} : d \in Decorations} \cup {Decorations}
 
 RECURSIVE SeqsLen(_, _)
